@@ -51,7 +51,7 @@ add("C18", "exploration", "property-based testing (rapid) with boundary-concentr
     "Trusted base: harness/ref/ntp (big.Int). The domain is sampled (about 2^61 instants x 2^36 delays), boundary regions are generated by construction.",
     "DESIGN.md 4/C18")
 add("C19", "exploration", "property-based differential testing (rapid) against an independent video-layers-allocation00 encoder/decoder, exhaustive enumeration of all slot assignments, mutation fuzzing of the decoder",
-    "Marshal must equal the reference encoder byte for byte for every drawn or enumerated valid allocation (all 69904 stream x spatial slot assignments), Unmarshal must consume everything and return an equal value also into a used receiver, single-defect invalid allocations must be rejected, and hostile inputs (random, mutated encodings, with an earlier decode) must not panic nor over-report consumed bytes.",
+    "Marshal must equal the reference encoder byte for byte for every drawn or enumerated valid allocation (all 69904 stream x spatial slot assignments), Unmarshal must consume everything and return an equal value also into a used receiver, single-defect invalid allocations must be rejected, and hostile inputs (random, mutated encodings, with an earlier decode) must not panic nor over-report consumed bytes. One known finding (a bitrate of 2^56 or more is written as the specification's nine-byte field and read back as another value) is excluded by its exact signature and counted.",
     "Trusted base: harness/ref/vla and ref/leb128 (my reading of the specification; shared bitmask only when every stream below the count has the same mask).",
     "DESIGN.md 4/C19")
 
